@@ -495,11 +495,21 @@ impl Cfg {
 // ---------------------------------------------------------------------------------------------
 
 /// What the executor needs beyond the `Allocator` trait.
-pub trait Flavour: Allocator + Clone + Sized + 'static {
+pub trait Flavour: Allocator + Clone + Sized + std::fmt::Debug + 'static {
   /// `verif_snapshot(max)`: (offset, size field) of the nodes reached from the sentinel, truncated?
   fn snap(&self, max: usize) -> (Vec<(u32, u32)>, bool);
   /// `truncate` (unsync only; `None` = not available)
   fn trunc(&mut self, n: usize) -> Option<std::io::Result<()>>;
+  /// the free-list policy this arena VALUE works with (there is no accessor: taken from its `Debug` output)
+  fn policy(&self) -> &'static str {
+    let d = format!("{self:?}");
+    match d.split("freelist: ").nth(1).map(|r| r.split([',', ' ', '\n', '}']).next().unwrap_or("")) {
+      Some("None") => "none",
+      Some("Optimistic") => "opt",
+      Some("Pessimistic") => "pess",
+      _ => "?",
+    }
+  }
 }
 
 impl Flavour for sync::Arena {
@@ -1960,8 +1970,14 @@ impl<A: Flavour> CaseInner for Case<A> {
         Some(2) => "pess",
         _ => "?",
       };
-      let head =
+      let mut head =
         format!("doff={} ro={} fk={} mv={}", a.data_offset(), a.read_only() as u8, fk, a.magic_version());
+      // implementation-side oracle `pol`: the policy the reopened arena value works with is the kind recorded in the
+      // file (printed only when it is not)
+      let pol = a.policy();
+      if pol != fk && fk != "?" {
+        head.push_str(&format!(" pol={pol}"));
+      }
       (head, self.state())
     }));
     if r.is_err() {
